@@ -313,7 +313,7 @@ class MaskCaps(Stream):
         vecs = [list(map(float, case['x'])), flags]
         for r, c, f, e, _ in rows:
             vecs += [list(map(float, r)), list(map(float, c))]
-        return proto.op('MASKSIFT', args, vecs)
+        return proto.op('MASKSIFT-PEEL', args, vecs)
 
     def _ks(self, case, out):
         return [case['kmax']] + [int(k) for k in sorted(out['caps'], key=int) if int(k) < case['kmax']]
